@@ -1,7 +1,7 @@
 (* Props/C02.v — the property theorems for C02 (parsed columns mean what the format says).
    Only statements, `exact <lemma>` and Print Assumptions live here. *)
 From Coq Require Import ZArith List Bool String.
-From BNP Require Import Base.Prims Model.C02 Proofs.C02.
+From BNP Require Import Base.Prims Model.C02 Proofs.C02 Gen.C02 Bridge.C02.
 Import ListNotations.
 Open Scope Z_scope.
 
@@ -146,6 +146,44 @@ Example C02_info_short_fixed :
   let rows := [[46; 10]] in
   info_col (List.concat rows) (item_table 0 rows) ([65; 67], IInteger, false) = Col [CInt 0].
 Proof. vm_compute. reflexivity. Qed.
+
+(* Source tie: the index / offset arithmetic regenerated from /repo on this run (Gen/C02.v, written by
+   translate/run.py from delimited_buffers.py, file_buffers.py, vcf_buffers.py, buffers/sam.py and
+   named_text_buffer.py) is the arithmetic of the model the theorems above are about: number of columns, buffer
+   size and sentinel, field start / end from the neighbouring delimiters, record ends taken before the CR
+   adjustment, the CR probe and per-row adjustment, the digit-matrix window and fill count, field length / column
+   selection / keep_sep, the VCF position shift and its column, the SAM rest-of-line field, and the INFO key-length
+   arithmetic with its end-of-buffer guard. *)
+Theorem C02_source_tie :
+  (forall e d, gen_n_fields e = m_n_fields e /\ gen_frb_size d = m_size d /\ gen_frb_keep e = m_keep e)
+  /\ (gen_frb_sentinel = m_sentinel /\ gen_frb_sentinel_pos = 0)
+  /\ (forall dp dn n e, gen_gbe_start dp dn n = m_start dp /\ gen_gbe_end dp dn n = dn
+                         /\ gen_gbe_entry_start_col = 0 /\ gen_gbe_entry_end e = m_entry_end e
+                         /\ gen_gbe_entry_ends_before_cr = m_entry_ends_before_cr)
+  /\ (forall e c, gen_cr_probe e = m_cr_probe e /\ gen_cr_elem_probe e = m_cr_probe e /\ gen_cr_byte = m_cr_byte
+                   /\ gen_cr_adjust e c = m_cr_adjust e c)
+  /\ (forall s e mx j row n, gen_mida_width s e = e - s /\ gen_mida_index s e mx j = m_mida_index e mx j
+                              /\ gen_mida_n_fill s e mx = m_mida_n_fill s e mx /\ gen_mida_fill_start row n mx = row * mx)
+  /\ (forall s e j n, gen_field_len s e = e - s /\ gen_gfbn_first j n = j /\ gen_gfbn_step j n = n
+                       /\ s + gen_gfbn_keep_len (gen_field_len s e) = m_keep_end e)
+  /\ (forall v, gen_vcf_shift_col = m_pos_shift_col /\ gen_vcf_shift v = m_pos_shift v)
+  /\ (forall s e ee st, gen_sam_extra_start s (gen_field_len s e) = m_extra_start e
+                         /\ gen_sam_extra_len ee st = m_extra_len ee st)
+  /\ (forall s k size l, gen_hfm_line_len k = m_line_len k /\ gen_hfm_ignored s k size = m_ignored s k size
+                          /\ gen_value_start s k = m_value_start s k /\ gen_value_len l k = m_value_len l k false
+                          /\ gen_value_keep_len (gen_value_len l k) = m_value_len l k true).
+Proof.
+  exact (conj (fun e d => conj (b_n_fields e) (conj (b_frb_size d) (b_frb_keep e)))
+        (conj b_frb_sentinel
+        (conj (fun dp dn n e => conj (b_gbe_start dp dn n) (conj (b_gbe_end dp dn n) (b_gbe_entry e)))
+        (conj (fun e c => conj (proj1 (b_cr_probe e)) (conj (proj2 (b_cr_probe e)) (conj b_cr_byte (b_cr_adjust e c))))
+        (conj (fun s e mx j row n => conj (b_mida_width s e) (conj (b_mida_index s e mx j) (conj (b_mida_n_fill s e mx) (b_mida_fill_start row n mx))))
+        (conj (fun s e j n => conj (b_field_len s e) (conj (proj1 (b_gfbn_select j n)) (conj (proj2 (b_gfbn_select j n)) (b_gfbn_keep s e))))
+        (conj b_vcf_shift
+        (conj (fun s e ee st => conj (b_sam_extra_start s e) (b_sam_extra_len ee st))
+              (fun s k size l => conj (b_hfm_line_len k) (conj (b_hfm_ignored s k size) (conj (b_value_start s k) (b_value_len l k)))))))))))).
+Qed.
+Print Assumptions C02_source_tie.
 
 (* ---------- non-vacuity ---------- *)
 (* a CRLF table with an empty field, a 1-byte field and a 9-byte field in one column meets the hypotheses of T1,
